@@ -255,6 +255,10 @@ def run(tier):
             Job("harness.c09", "atomic", H.atomic_shards(), 240, bounds=dict(batch="1..4 traces", unserialisable="every subset", fault_position="0..n or none",
                                                                          exception_classes=[e.__name__ for e in H.EXC], via=["SQLiteStore.add", "CallTraceStoreLogger.flush"]),
                 rule="one path = (batch size, unserialisable subset, fault position, exception class, entry point)", describe=H.describe)][::-1]
+    jobs.append(Job("harness.c09", "atomic_rich_quick" if tier == "quick" else "atomic_rich", H.rich_shards(tier == "quick"), 300,
+                    bounds=dict(batch="2 traces" if tier == "quick" else "2..3 traces", per_trace=["serialisable | unserialisable function | unencodable argument type", "shared function | own function",
+                                                                "identical | differs only in yield type | only in return type | only in argument type"], fault=["none", "after 1 row"]),
+                    rule="one path = (per-trace kinds, shared functions, differing column, fault); every DISTINCT serialisable trace is committed, or none", describe=H.describe))
     return run_check(PID, tier, jobs, H.FUNCTIONS, ASSUMPTIONS, pre=lambda: e2_in_subprocess(tier))
 
 
